@@ -289,10 +289,10 @@ class PartitionRecords:
         # aborting batches
         try:
             control_record = next(next_batch)
-        except StopIteration:  # pragma: no cover
-            raise Errors.KafkaError(
-                "Control batch did not contain any records"
-            ) from None
+        except StopIteration:
+            # The log cleaner can leave a control batch without records
+            # behind. There is no marker in it, the batch is just skipped.
+            return False
         return ControlRecord.parse(control_record.key) == ABORT_MARKER
 
     def _consumer_record(self, tp, record):
